@@ -67,6 +67,8 @@ theorem toString_int_nonneg (v : Int) (h : 0 ≤ v) : toString v = toString v.to
   obtain ⟨n, rfl⟩ := Int.eq_ofNat_of_zero_le h
   simp [toString, Int.repr]
 
+@[simp] theorem fnNameTok_nil (d : Bool) (n : String) : fnNameTok d [] n = n := by cases d <;> simp [fnNameTok, String.intercalate, String.join]
+
 theorem escapeKeyTok_simple (k : String) (h : simpleKey k = true) : escapeKeyTok k = k := by simp [escapeKeyTok, h]
 
 section Y
@@ -153,6 +155,18 @@ theorem yield_tAtom (e : Expr) (G : Nat) (hw : wAtom recW e = true) (hG : size (
       obtain ⟨G', rfl⟩ : ∃ G', G = G' + 1 := ⟨G - 1, by omega⟩
       have hy := yield_exprNodes recT recW Hrec args G' hw.2 (by simp at hG ⊢; omega)
       simp [eExpr, tAtom, tAtomInner, symName, yieldL_interleave, hy, commaSep, sepBy, String.intercalate]
+  | quant ty v c w =>
+    simp only [wAtom, Bool.and_eq_true] at hw
+    obtain ⟨⟨_, hc⟩, hwh⟩ := hw
+    have hsz : 9 + size (recT c) + sizeL (optList w (whereNode N recT)) + 1 ≤ G := by
+      simp [tAtom, tAtomInner, varNode, symName, exprNode] at hG ⊢; omega
+    obtain ⟨G', rfl⟩ : ∃ G', G = G' + 1 := ⟨G - 1, by omega⟩
+    have h1 := Hrec c G' hc (by omega)
+    cases w with
+    | none => simp [eExpr, tAtom, tAtomInner, optList, varNode, symName, exprNode, h1]
+    | some x =>
+      have h2 := Hrec x G' hwh (by simp [optList, whereNode, exprNode] at hsz; omega)
+      simp [eExpr, tAtom, tAtomInner, optList, whereNode, varNode, symName, exprNode, h1, h2]
   | _ => simp [wAtom] at hw
 
 theorem yield_base (e : Expr) (G : Nat) (hw : (isCountStar e || wAtom recW e) = true)
@@ -194,7 +208,7 @@ theorem yield_propKids : ∀ (e : Expr) (G : Nat), wProps recW e = true → size
   | .arith _ _, _, hw, _ => by simp [wProps, isCountStar, wAtom] at hw
   | .unary _ _, _, hw, _ => by simp [wProps, isCountStar, wAtom] at hw
   | .map kvs, G, hw, hG => yield_base recT recW Hrec _ G (by simpa [wProps] using hw) (by simpa [propKids] using hG) |>.trans (by simp [propKids])
-  | .quant _ _ _ _, _, hw, _ => by simp [wProps, isCountStar, wAtom] at hw
+  | .quant ty v c w, G, hw, hG => yield_base recT recW Hrec _ G (by simpa [wProps] using hw) (by simpa [propKids] using hG) |>.trans (by simp [propKids])
   | .patPred _, _, hw, _ => by simp [wProps, isCountStar, wAtom] at hw
   | .nil, _, hw, _ => by simp [wProps, isCountStar, wAtom] at hw
 
